@@ -31,6 +31,10 @@ type LoopSpec struct {
 	LockVariant bool
 	// EntryAsserts hold when the loop is reached from outside.
 	EntryAsserts []*Clause
+	// Exhaustive: the loop is left only through its header.
+	Exhaustive bool
+	// ExitAsserts hold on every edge that leaves the loop.
+	ExitAsserts []*Clause
 }
 
 type SiteSpec struct {
@@ -579,6 +583,20 @@ func (cs *ContractSet) parseClause(fc *FuncContract, c rawClause) error {
 			fc.Loops[n].LockVariant = true
 			return nil
 		}
+		if len(f) >= 2 && f[1] == "exhaustive" {
+			// loop N exhaustive [-- label]: the loop is only left through its
+			// header (the range is exhausted / the condition is false), never
+			// by break, return or goto from its body
+			n, err := strconv.Atoi(f[0])
+			if err != nil {
+				return fmt.Errorf("loop index: %v", err)
+			}
+			if fc.Loops[n] == nil {
+				fc.Loops[n] = &LoopSpec{}
+			}
+			fc.Loops[n].Exhaustive = true
+			return nil
+		}
 		if len(f) < 3 {
 			return fmt.Errorf("malformed loop clause")
 		}
@@ -606,6 +624,10 @@ func (cs *ContractSet) parseClause(fc *FuncContract, c rawClause) error {
 			// obligation there; unlike an invariant it is neither assumed at
 			// the head nor required of the iterations)
 			ls.EntryAsserts = append(ls.EntryAsserts, cl)
+		case "exit":
+			// loop N exit expr: holds whenever the loop is left (through its
+			// header, by break or by return)
+			ls.ExitAsserts = append(ls.ExitAsserts, cl)
 		default:
 			return fmt.Errorf("unknown loop clause %q", f[1])
 		}
